@@ -19,7 +19,7 @@ PLACEMENTS = ["root", "helper", "kept-function", "data-function"]
 PRODUCERS = ["data-function-before", "keep-before", "after", "earlier-evaluation", "never"]
 
 
-def build(placement, producer, arg_passing=False):
+def build(placement, producer, arg_passing=False, n_loads=1):
     """Program with one dds.load("/p") at the given placement and a producer of "/p" of the given kind.
     Returns (prog, events-prefix that populates the store if needed)."""
     funcs = []
@@ -28,7 +28,7 @@ def build(placement, producer, arg_passing=False):
     funcs.append({"name": "prod", "params": [], "annot": "/p" if prod_is_data else None, "salt": "p0", "stmts": [], "reads": ["VAR_P"]})
     funcs.append({"name": "leaf", "params": [{"name": "a", "default": None}], "annot": None, "salt": "l0", "stmts": [], "reads": []})
     load = {"k": "load", "path": "/p"}
-    reader_stmts = [load]
+    reader_stmts = [copy.deepcopy(load) for _ in range(n_loads)]      # the same path may be loaded several times
     if arg_passing:
         reader_stmts.append({"k": "keep", "path": "/nested", "callee": ("m0", "leaf"), "pos": [["local", 0]], "kw": [], "layout": "single"})
     root_stmts = []
@@ -63,8 +63,8 @@ def build(placement, producer, arg_passing=False):
     return prog
 
 
-def scenario(placement, producer, populated, arg_passing):
-    prog = build(placement, producer, arg_passing)
+def scenario(placement, producer, populated, arg_passing, n_loads=1):
+    prog = build(placement, producer, arg_passing, n_loads)
     call = {"a": "call", "mod": "m0", "fn": "root", "style": "eval", "pos": [], "kw": []}
     prod_call = {"a": "call", "mod": "m0", "fn": "prod", "style": "direct", "pos": [], "kw": []}
     ev = [("prog", prog)]
@@ -101,7 +101,7 @@ def run(rep, tier, seed, proof_ok):
     rep.rule = ("every placement of dds.load {root of the evaluated function, nested helper, function kept with dds.keep, data function} x "
                 "producer of the path {data function earlier in the same evaluation, dds.keep earlier in the same evaluation, later in "
                 "the same evaluation, an earlier evaluation, never} x {fresh, populated store} x {loaded value only returned, loaded "
-                "value passed to a nested keep}; history: evaluate twice, change the producer's tracked variable, (re-produce,) evaluate "
+                "value passed to a nested keep} (+ the same path loaded two / three times by one reader); history: evaluate twice, change the producer's tracked variable, (re-produce,) evaluate "
                 "twice; compared with the dds-free reference (value most recently kept in program order), with the Coq model, and "
                 "with the expectation that read-before-produce / never-produced is rejected by a DDS error; exhaustive over this matrix")
     jobs = []
@@ -110,11 +110,16 @@ def run(rep, tier, seed, proof_ok):
             continue
         jobs.append({"placement": placement, "producer": producer, "populated": populated, "arg_passing": argp,
                      "events": scenario(placement, producer, populated, argp)})
+    # the same path loaded two / three times by one reader (repeated dependencies must not cancel or be dropped)
+    for placement, producer, n_loads in itertools.product(PLACEMENTS, ("data-function-before", "keep-before", "earlier-evaluation"), (2, 3)):
+        jobs.append({"placement": placement, "producer": producer, "populated": False, "arg_passing": n_loads == 3, "n_loads": n_loads,
+                     "events": scenario(placement, producer, False, n_loads == 3, n_loads)})
     with cf.ThreadPoolExecutor(max_workers=C.NPROC) as ex:
         results = list(ex.map(run_one, jobs))
     outcomes = {}
     for job, recs in zip(jobs, results):
-        name = f"{job['placement']}/{job['producer']}/{'populated' if job['populated'] else 'fresh'}/{'arg' if job['arg_passing'] else 'ret'}"
+        name = f"{job['placement']}/{job['producer']}/{'populated' if job['populated'] else 'fresh'}/{'arg' if job['arg_passing'] else 'ret'}" + \
+            (f"/loads={job['n_loads']}" if job.get("n_loads", 1) > 1 else "")
         rep.case(name)
         if isinstance(recs, dict):
             rep.violation("harness-error:c09", f"{name}: " + recs["error"][-300:], job, no_input=True)
